@@ -192,9 +192,8 @@ class Run:
             r.violated = r.violated or "temporal"
         if "Deadlock reached" in out:
             r.violated = r.violated or "deadlock"
-        if re.search(r"Postcondition|POSTCONDITION", out) and "violated" in out and not r.violated:
-            if re.search(r"(Postcondition|POSTCONDITION)[^\n]*(violated|false)", out, re.I):
-                r.postcondition_failed = True
+        if re.search(r"(Postcondition|POSTCONDITION)[^\n]*(violated|false)", out, re.I) and not r.violated:
+            r.postcondition_failed = True
         if "Evaluating assumption" in out and "is false" in out or re.search(r"Assumption .* is false", out):
             r.violated = r.violated or "assumption"
         finished = ("Model checking completed. No error has been found." in out) or \
